@@ -26,6 +26,7 @@ Next ==
                          /\ cmd' = [c |-> "stray", id |-> i]
   \/ /\ Faults /\ CanPush /\ st' = Garbage(st) /\ cmd' = [c |-> "garbage"]
   \/ \E i \in Id : /\ Faults /\ CanPush /\ CanReply(st, i) /\ st' = BadBody(st, i) /\ cmd' = [c |-> "badbody", id |-> i]
+  \/ \E i \in Id : /\ Faults /\ CanPush /\ CanReply(st, i) /\ st' = Glued(st, i) /\ cmd' = [c |-> "glued", id |-> i]
   \/ /\ Faults /\ ~st.closed /\ st' = Close(st) /\ cmd' = [c |-> "close"]
   \/ /\ Faults /\ st.cpc # "idle" /\ st' = DropCaller(st) /\ cmd' = [c |-> "dropc"]
   \/ \E m \in Modes : /\ m # st.sendMode /\ st' = [st EXCEPT !.sendMode = m] /\ cmd' = [c |-> "mode", m |-> m]
